@@ -120,13 +120,21 @@ def entries : List Entry := [
         let g0 ← fromHex g0; let g1 ← fromHex g1; let g2 ← fromHex g2
         if Spec.buildChallenge c g0 g1 g2 != b then pure "bad-format"
         else if wfChallenge c g0 g1 then pure ("ok " ++ showChallenge c) else pure "*"
-      | [h, f, sc, rs, tn, ti, ver, g0, g1, g2, tnMax, tiMax] => do
+      | [h, f, sc, rs, tn, ti, ver, g0, g1, g2, tnMax, tiMax, tnOff, tiOff] => do
         let b ← fromHex h
         let f ← u32Arg f; let sc ← fromHex sc; let rs ← fromHex rs
         let tn ← fromHex tn; let ti ← fromHex ti; let ver ← fromHex ver
         let c : Challenge := ⟨f, sc, rs, tn, ti, ver⟩
         let g0 ← fromHex g0; let g1 ← fromHex g1; let g2 ← fromHex g2
-        if Spec.buildChallengeMax c g0 g1 g2 (← tnMax.toNat?) (← tiMax.toNat?) != b then pure "bad-format"
+        let built := Spec.buildChallengeMax c g0 g1 g2 (← tnMax.toNat?) (← tiMax.toNat?)
+        -- the BufferOffset of an empty field is ignored on receipt (MS-NLMP 2.2.1.2): any value may stand there
+        let patch (bs : Bytes) (at_ : Nat) (tok : String) (empty : Bool) : Option Bytes :=
+          if tok == "-" then some bs
+          else if !empty then none
+          else do pure (bs.take at_ ++ natLe 4 (← tok.toNat?) ++ bs.drop (at_ + 4))
+        let built ← patch built 16 tnOff tn.isEmpty
+        let built ← patch built 44 tiOff ti.isEmpty
+        if built != b then pure "bad-format"
         else if wfChallenge c g0 g1 then pure ("ok " ++ showChallenge c) else pure "*"
       | _ => none },
   -- glue: the context's negotiate token is the wrapping of its NEGOTIATE message; the session-setup helper passes it on
